@@ -50,14 +50,11 @@ Proof. exact process_quota_first. Qed.
 
 (* -- "before construction", end to end (EvolutionSimulator::run + Iterative::run + Solver::solve): the quota is already reached when
       the solver starts (it answers true at every poll): the solver returns normally, runs no generation, and the solution has no
-      tour and reports EVERY job of the plan as unassigned *)
+      tour and reports EVERY job of the plan as unassigned - whatever limits are configured and whatever the clock says *)
 Theorem C07_quota_before_construction_end_to_end :
-  forall (cfg : econfig) (W : oracles) (q : quota) (N : nat),
-    oracles_ok W ->
-    c_max_gen cfg = Some N -> 1 <= N -> (forall l, c_user_term cfg = Some l -> 1 <= l) -> 1 <= c_init_ops cfg -> 1 <= c_init_size cfg ->
-    1 <= c_track cfg -> c_individuals cfg = [] ->
-    (forall t, t < 3 -> o_time W t = false /\ forall i, o_other W i t = false) ->
-    (c_max_time cfg = true -> o_init_quota W 0 = false) ->
+  forall (cfg : econfig) (W : oracles) (q : quota),
+    oracles_ok W -> c_legacy_stop cfg = false ->
+    1 <= c_init_ops cfg -> 1 <= c_init_size cfg -> 1 <= c_track cfg -> c_individuals cfg = [] ->
     (forall n, q n = true) ->
     exists best st, evolve cfg W q = EOk best st
                     /\ gens_run (s_tele st) = 0 /\ s_iters st = 0
@@ -65,25 +62,24 @@ Theorem C07_quota_before_construction_end_to_end :
                     /\ h_routes best = []
                     /\ (forall j, In j (c_jobs cfg) -> In j (h_unassigned best)).
 Proof.
-  intros cfg W q N HW Hc HN Hu Hops Hsize HT Hind Hquiet Hiq Hq.
-  assert (Hs : seeded cfg = []) by (unfold seeded; rewrite Hind; destruct (c_init_size cfg); reflexivity).
-  assert (Hfirst : first_check_passes cfg W).
-  { apply (first_check_positive_limit cfg W N Hc (eff_limit_pos cfg N HN Hu) Hquiet). rewrite Hs. exact Hiq. }
-  destruct (evolve_quota_before_construction cfg W q HW Hops HT Hind Hsize Hfirst Hq) as (best & st & E & Hg & Hi & Hb & Hr & Hun).
+  intros cfg W q HW Hleg Hops Hsize HT Hind Hq.
+  destruct (evolve_quota_before_construction cfg W q HW Hops HT Hind (starts_nonempty_now cfg W Hleg Hsize) Hq)
+    as (best & st & E & Hg & Hi & Hb & Hr & Hun).
   exists best, st. split; [exact E|]. split; [exact Hg|]. split; [exact Hi|]. split; [exact Hb|]. split; [exact Hr|exact Hun].
 Qed.
 
-(* -- "the solver still returns normally with a solution": EvolutionSimulator::run + Iterative::run + Solver::solve, for EVERY
-      quota oracle, under a positive generation limit COMBINED WITH ANY of the other criteria the builder accepts (max-time,
-      min-cv sample / period, target proximity: oracles; none of them may already be true at the very first check, i.e. before the
-      first initial solution): Ok(best), best has every job in exactly one home and nothing pending, and so has every individual of the population;
+(* -- "the solver still returns normally with a solution": EvolutionSimulator::run + Iterative::run + Solver::solve, the code as
+      it is (c_legacy_stop = false: since the repair of finding C07-F2 the initial phase builds one solution before its stop tests
+      apply), for EVERY quota oracle, EVERY clock (time limit expired or not, at any moment) and EVERY answer of the other criteria
+      the builder accepts (max-time, min-cv sample / period, target proximity: oracles), under a generation limit N (also N = 0):
+      Ok(best), best has every job in exactly one home and nothing pending, and so has every individual of the population;
       at most N + 1 generations; no generation starts once the quota has fired (k-th poll): at most k - 1 generations.
       W contains the offspring oracles of a user-supplied hyper-heuristic: o_hyper (search_many) and o_diverse (diversify_many)
       return ANY list per generation, also the empty one (hyper_ok: each handed-over solution is a complete solution of the plan when
       the population and the built-in offspring are; e.g. every selection among them, C07_hyper_selection_is_ok), o_inner (does it run
       the built-in search at all), the parent selection o_parents (any list, also empty), the selection phase o_exploit, the operator
-      chosen by random.weighted for the later initial slots; cfg may contain a user-supplied termination on statistics.generation
-      (positive limit), supplied initial individuals (complete solutions) and any track_population >= 1.
+      chosen by random.weighted for the later initial slots; cfg may contain a user-supplied termination on statistics.generation,
+      supplied initial individuals (complete solutions) and any track_population >= 1.
       Also: the loop iterations that got past the termination / quota test (= search_many calls), the add_all calls, the
       population.on_generation calls and the generations counted by the telemetry are the SAME number, population.on_generation saw
       statistics.generation = 0, 1, 2, ... (no iteration is uncounted, none counted twice); metrics.generations reports the INDEX of
@@ -91,11 +87,9 @@ Qed.
       last one; the supplied individuals are still in the population at the end *)
 Theorem C07_evolve_returns_valid :
   forall (cfg : econfig) (W : oracles) (q : quota) (N k : nat),
-    oracles_ok W -> hyper_ok (c_jobs cfg) W ->
-    c_max_gen cfg = Some N -> 1 <= N -> (forall l, c_user_term cfg = Some l -> 1 <= l) -> 1 <= c_init_ops cfg -> 1 <= c_init_size cfg ->
+    oracles_ok W -> hyper_ok (c_jobs cfg) W -> c_legacy_stop cfg = false ->
+    c_max_gen cfg = Some N -> 1 <= c_init_ops cfg -> 1 <= c_init_size cfg ->
     1 <= c_track cfg -> Forall (fun s => Inv (c_jobs cfg) s /\ h_required s = []) (c_individuals cfg) ->
-    (forall t, t < 3 -> o_time W t = false /\ forall i, o_other W i t = false) ->
-    (c_max_time cfg = true -> o_init_quota W (length (seeded cfg)) = false) ->
     exists best st, evolve cfg W q = EOk best st
                     /\ (Inv (c_jobs cfg) best /\ h_required best = [])
                     /\ In best (s_pop st)
@@ -110,12 +104,8 @@ Theorem C07_evolve_returns_valid :
                         /\ popgen_stats (s_log st) = seq 0 (s_iters st))
                     /\ (exists e, s_pop st = seeded cfg ++ e).
 Proof.
-  intros cfg W q N k HW HH Hc HN Hu Hops Hsize HT Hind Hquiet Hiq.
-  apply (evolve_returns cfg W q HW HH N k (gen_limit_cfg cfg N Hc) Hops HT Hind). unfold starts_nonempty.
-  assert (Hd : seeded cfg = [] \/ seeded cfg <> []) by (destruct (seeded cfg); [left; reflexivity|right; discriminate]).
-  destruct Hd as [Es|Hne]; [right|left; exact Hne].
-  split; [rewrite Es; cbn [length]; lia|].
-  exact (first_check_positive_limit cfg W N Hc (eff_limit_pos cfg N HN Hu) Hquiet Hiq).
+  intros cfg W q N k HW HH Hleg Hc Hops Hsize HT Hind.
+  exact (evolve_returns cfg W q HW HH N k (gen_limit_cfg cfg N Hc) Hops HT Hind (starts_nonempty_now cfg W Hleg Hsize)).
 Qed.
 
 (* with supplied initial individuals (with_init_solutions; at least one is taken: initial.max_size >= 1) a solution is returned
@@ -139,14 +129,14 @@ Proof.
 Qed.
 
 (* NOTHING is configured (no max-generations, max-time, min-cv, target proximity): EvolutionConfigBuilder::get_termination installs
-   max-generations 3000 + max-time 300 s; the same guarantees with N = 3000, for every quota and every oracle, also under a
-   user-supplied termination wrapped around them *)
+   max-generations 3000 + max-time 300 s; the same guarantees with N = 3000, for every quota, every clock and every oracle, also
+   under a user-supplied termination wrapped around them *)
 Theorem C07_default_limits_return_valid :
   forall (cfg : econfig) (W : oracles) (q : quota) (k : nat),
-    oracles_ok W -> hyper_ok (c_jobs cfg) W ->
+    oracles_ok W -> hyper_ok (c_jobs cfg) W -> c_legacy_stop cfg = false ->
     c_max_gen cfg = None -> c_max_time cfg = false -> c_min_cv cfg = None -> c_target cfg = false ->
-    (forall l, c_user_term cfg = Some l -> 1 <= l) -> 1 <= c_init_ops cfg -> 1 <= c_init_size cfg -> 1 <= c_track cfg ->
-    c_individuals cfg = [] -> o_time W 0 = false -> o_init_quota W 0 = false ->
+    1 <= c_init_ops cfg -> 1 <= c_init_size cfg -> 1 <= c_track cfg ->
+    Forall (fun s => Inv (c_jobs cfg) s /\ h_required s = []) (c_individuals cfg) ->
     exists best st, evolve cfg W q = EOk best st
                     /\ (Inv (c_jobs cfg) best /\ h_required best = [])
                     /\ In best (s_pop st)
@@ -155,16 +145,11 @@ Theorem C07_default_limits_return_valid :
                     /\ (fires_by q k -> gens_run (s_tele st) <= pred k)
                     /\ s_iters st = gens_run (s_tele st).
 Proof.
-  intros cfg W q k HW HH H1 H2 H3 H4 Hu Hops Hsize HT Hind Ht0 Hiq.
-  assert (Hs : seeded cfg = []) by (unfold seeded; rewrite Hind; destruct (c_init_size cfg); reflexivity).
-  destruct (evolve_returns cfg W q HW HH 3000 k (gen_limit_default cfg H1 H2 H3 H4) Hops HT) as (best & st & E & Hb & Hin & Hp & Hg & Hq & _ & _ & Hcnt & _).
-  - rewrite Hind. constructor.
-  - right. rewrite Hs. split; [cbn [length]; lia|]. unfold first_check_passes, cfg_terms, terminations. rewrite Hs, H1, H2, H3, H4.
-    cbn [length app]. destruct (c_user_term cfg) as [l|] eqn:El; cbn [app is_termination est_exceeds existsb Nat.leb Nat.eqb Nat.ltb Nat.mul];
-      rewrite Ht0, Hiq; [|split; reflexivity].
-    specialize (Hu l eq_refl). destruct l as [|l']; [lia|]. split; reflexivity.
-  - exists best, st. split; [exact E|]. split; [exact Hb|]. split; [exact Hin|]. split; [exact Hp|]. split; [exact Hg|].
-    split; [exact Hq|exact (proj1 Hcnt)].
+  intros cfg W q k HW HH Hleg H1 H2 H3 H4 Hops Hsize HT Hind.
+  destruct (evolve_returns cfg W q HW HH 3000 k (gen_limit_default cfg H1 H2 H3 H4) Hops HT Hind (starts_nonempty_now cfg W Hleg Hsize))
+    as (best & st & E & Hb & Hin & Hp & Hg & Hq & _ & _ & Hcnt & _).
+  exists best, st. split; [exact E|]. split; [exact Hb|]. split; [exact Hin|]. split; [exact Hp|]. split; [exact Hg|].
+  split; [exact Hq|exact (proj1 Hcnt)].
 Qed.
 
 (* every user-supplied heuristic that only SELECTS among the parents and the offspring of the built-in search (drops some or all of
@@ -205,8 +190,20 @@ Theorem C07_no_initial_operator_error :
   forall cfg W q, c_init_ops cfg = 0 -> evolve cfg W q = EErr ErrNoInitialMethods.
 Proof. exact evolve_no_initial_operator. Qed.
 
-Theorem C07_zero_generations_error :
-  forall cfg W q, c_max_gen cfg = Some 0 -> 1 <= c_init_ops cfg -> 1 <= c_track cfg -> seeded cfg = [] -> evolve cfg W q = EErr ErrNoSolution.
+(* max_generations = 0 (outside the statement: "a positive limit"): the code as it is builds one initial solution and returns it
+   without running a generation; BEFORE the repair of C07-F2 (c_legacy_stop = true) it returned "cannot find any solution" *)
+Theorem C07_zero_generations_returns_initial_solution :
+  forall cfg W q,
+    oracles_ok W -> c_legacy_stop cfg = false ->
+    c_max_gen cfg = Some 0 -> 1 <= c_init_ops cfg -> 1 <= c_init_size cfg -> 1 <= c_track cfg ->
+    Forall (fun s => Inv (c_jobs cfg) s /\ h_required s = []) (c_individuals cfg) ->
+    exists best st, evolve cfg W q = EOk best st /\ gens_run (s_tele st) = 0 /\ s_iters st = 0
+                    /\ (Inv (c_jobs cfg) best /\ h_required best = []).
+Proof. exact evolve_zero_generations_now. Qed.
+
+Theorem C07_zero_generations_error_before_fix :
+  forall cfg W q, c_legacy_stop cfg = true ->
+    c_max_gen cfg = Some 0 -> 1 <= c_init_ops cfg -> 1 <= c_track cfg -> seeded cfg = [] -> evolve cfg W q = EErr ErrNoSolution.
 Proof. exact evolve_zero_generations. Qed.
 
 Theorem C07_track_population_zero_panics :
@@ -220,39 +217,46 @@ Theorem C07_no_solution_iff_population_empty :
     1 <= c_init_ops cfg /\ 1 <= c_track cfg /\ exists st, evolve_run cfg W q = Some st /\ s_pop st = [].
 Proof. exact evolve_no_solution_iff. Qed.
 
-(* -- clause "a positive time limit is hit => still returns a solution" is REFUTED on the faithful model (finding C07-F2):
+(* -- clause "a positive time limit is hit => still returns a solution" was REFUTED on the faithful model of the code BEFORE /repo
+      commit 2c5dd99 (finding C07-F2, now repaired; c_legacy_stop = true selects that EvolutionSimulator::run):
       only a time limit is configured and it has NOT expired (MaxTime::is_termination = false for three more checks), but more than
       initial.quota (5 %) of it has passed since the clock was started at EvolutionConfigBuilder::build when the run begins
-      (o_init_quota 0 = true): the initial phase builds nothing, Iterative::run spins over an empty population until the limit is
-      hit and Solver::solve returns Err("cannot find any solution") *)
+      (o_init_quota 0 = true): the initial phase built nothing, Iterative::run span over an empty population until the limit was
+      hit and Solver::solve returned Err("cannot find any solution").  The very same configuration and oracles with the code as it
+      is (c_legacy_stop = false) return a solution *)
 Theorem C07_time_limit_returns_solution_refuted :
   exists (cfg : econfig) (W : oracles) (q : quota),
-    c_max_gen cfg = None /\ c_max_time cfg = true /\ 1 <= c_init_ops cfg /\ 1 <= c_init_size cfg /\ 1 <= c_track cfg
+    c_legacy_stop cfg = true
+    /\ c_max_gen cfg = None /\ c_max_time cfg = true /\ 1 <= c_init_ops cfg /\ 1 <= c_init_size cfg /\ 1 <= c_track cfg
     /\ c_individuals cfg = [] /\ (forall n, q n = false)
     /\ fst (is_termination (cfg_terms cfg) 0 (o_time W) (o_other W) 0) = false
     /\ o_init_quota W 0 = true
-    /\ evolve cfg W q = EErr ErrNoSolution.
+    /\ evolve cfg W q = EErr ErrNoSolution
+    /\ exists best st, evolve (mkC (c_jobs cfg) (c_reg cfg) (c_max_gen cfg) (c_max_time cfg) (c_min_cv cfg) (c_target cfg) (c_user_term cfg)
+                                   (c_init_ops cfg) (c_init_size cfg) (c_fuel cfg) (c_individuals cfg) (c_track cfg) false) W q = EOk best st.
 Proof.
-  exists (mkC [0%Z; 1%Z] 1 None true None false None 4 4 9 [] 1),
-         (loop_oracles [false; false; false; true] [true] [] [] [] [] [] [] []), (counting_quota None).
-  split; [reflexivity|]. split; [reflexivity|]. split; [cbn; lia|]. split; [cbn; lia|]. split; [cbn; lia|]. split; [reflexivity|].
-  split; [intros n; reflexivity|]. split; [vm_compute; reflexivity|]. split; [reflexivity|]. vm_compute. reflexivity.
+  exists (mkC [0%Z; 1%Z] 1 None true None false None 4 4 9 [] 1 true),
+         (mkO (fun t => 3 <=? t) (fun _ _ => false) (fun _ => true) (fun _ => 0) (fun _ _ _ _ => EFailure None false false)
+              (fun _ _ => []) (fun _ => true) (fun _ _ => []) (fun _ => true) (fun _ _ _ => []) (fun _ _ _ _ => EFailure None false false)
+              (fun _ _ => 0) (fun _ => 0) (fun _ _ offs => offs)),
+         (counting_quota None).
+  split; [reflexivity|]. split; [reflexivity|]. split; [reflexivity|]. split; [cbn; lia|]. split; [cbn; lia|]. split; [cbn; lia|]. split; [reflexivity|].
+  split; [intros n; reflexivity|]. split; [vm_compute; reflexivity|]. split; [reflexivity|]. split; [vm_compute; reflexivity|].
+  eexists _, _. vm_compute. reflexivity.
 Qed.
 
-(* -- clause "a positive time limit is hit => returns normally with a solution" (no generation limit configured): PARTIAL.
-      It holds for EVERY quota / operator / offspring oracle when the population Iterative::run starts from is not empty: an
-      individual was supplied, or the first check of the initial phase passes (the limit not yet reached and not yet initial.quota
-      = 5 % of it gone when the run starts) - without that hypothesis the statement fails: C07_time_limit_returns_solution_refuted,
-      finding C07-F2.  T0 = the number of clock readings after which MaxTime answers true (the clock does not go back); every test
-      of Iterative::run reads the clock, so at most T0 generations are run; c_fuel is only the fuel of the model's recursion: the
-      result is the same for every fuel above T0, i.e. the loop ENDS.  No generation starts once the quota has fired *)
-Theorem C07_time_limit_returns_valid_partial :
+(* -- clause "a positive time limit is hit => returns normally with a solution" (no generation limit configured), the code as it is:
+      for EVERY quota / operator / offspring oracle and EVERY clock - also one that has used up more than initial.quota of the
+      limit, or all of it, before the run starts.  T0 = the number of clock readings after which MaxTime answers true (the clock
+      does not go back); every test of Iterative::run reads the clock, so at most T0 generations are run; c_fuel is only the fuel
+      of the model's recursion: the result is the same for every fuel above T0, i.e. the loop ENDS.  No generation starts once the
+      quota has fired *)
+Theorem C07_time_limit_returns_valid :
   forall (cfg : econfig) (W : oracles) (q : quota) (T0 k : nat),
-    oracles_ok W -> hyper_ok (c_jobs cfg) W ->
+    oracles_ok W -> hyper_ok (c_jobs cfg) W -> c_legacy_stop cfg = false ->
     c_max_gen cfg = None -> c_user_term cfg = None -> c_max_time cfg = true ->
-    1 <= c_init_ops cfg -> 1 <= c_track cfg ->
+    1 <= c_init_ops cfg -> 1 <= c_init_size cfg -> 1 <= c_track cfg ->
     Forall (fun s => Inv (c_jobs cfg) s /\ h_required s = []) (c_individuals cfg) ->
-    (seeded cfg <> [] \/ (length (seeded cfg) < c_init_size cfg /\ first_check_passes cfg W)) ->
     (forall t, T0 <= t -> o_time W t = true) -> T0 < c_fuel cfg ->
     exists best st, evolve cfg W q = EOk best st
                     /\ (Inv (c_jobs cfg) best /\ h_required best = [])
@@ -262,35 +266,34 @@ Theorem C07_time_limit_returns_valid_partial :
                     /\ (fires_by q k -> gens_run (s_tele st) <= pred k)
                     /\ s_iters st = gens_run (s_tele st).
 Proof.
-  intros cfg W q T0 k HW HH Hc Hu Ht Hops HT Hind Hstart Hclock Hfuel.
-  destruct (evolve_time_returns cfg W q HW HH T0 k Hc Hu Ht Hops HT Hind Hstart Hclock Hfuel)
+  intros cfg W q T0 k HW HH Hleg Hc Hu Ht Hops Hsize HT Hind Hclock Hfuel.
+  destruct (evolve_time_returns cfg W q HW HH T0 k Hc Hu Ht Hops HT Hind (starts_nonempty_now cfg W Hleg Hsize) Hclock Hfuel)
     as (best & st & E & Hb & Hin & Hp & Hg & Hq & Hcnt).
   exists best, st. split; [exact E|]. split; [exact Hb|]. split; [exact Hin|]. split; [exact Hp|]. split; [exact Hg|].
   split; [exact Hq|exact (proj1 Hcnt)].
 Qed.
 
-(* its hypotheses are satisfiable: the clock answers true from its 3rd reading on, the first check passes *)
+(* its hypotheses are satisfiable, also with a clock that has already used up the whole limit when the run starts (T0 = 0) *)
 Theorem C07_time_limit_nonvacuous :
   exists (cfg : econfig) (W : oracles) (q : quota) (best : hsol) (st : estate),
-    oracles_ok W /\ hyper_ok (c_jobs cfg) W
-    /\ c_max_gen cfg = None /\ c_user_term cfg = None /\ c_max_time cfg = true /\ 1 <= c_init_ops cfg /\ 1 <= c_track cfg
-    /\ c_individuals cfg = []
-    /\ (length (seeded cfg) < c_init_size cfg /\ first_check_passes cfg W)
-    /\ (forall t, 3 <= t -> o_time W t = true) /\ 3 < c_fuel cfg
-    /\ evolve cfg W q = EOk best st /\ gens_run (s_tele st) = 1.
+    oracles_ok W /\ hyper_ok (c_jobs cfg) W /\ c_legacy_stop cfg = false
+    /\ c_max_gen cfg = None /\ c_user_term cfg = None /\ c_max_time cfg = true /\ 1 <= c_init_ops cfg /\ 1 <= c_init_size cfg
+    /\ 1 <= c_track cfg /\ c_individuals cfg = []
+    /\ (forall t, 0 <= t -> o_time W t = true) /\ 0 < c_fuel cfg
+    /\ evolve cfg W q = EOk best st /\ gens_run (s_tele st) = 0 /\ length (s_pop st) = 1.
 Proof.
-  exists (mkC [0%Z; 1%Z] 1 None true None false None 2 2 9 [] 1),
-         (mkO (fun t => 3 <=? t) (fun _ _ => false) (fun _ => false) (fun _ => 0) (fun _ _ _ _ => EFailure None false false)
+  exists (mkC [0%Z; 1%Z] 1 None true None false None 2 2 9 [] 1 false),
+         (mkO (fun t => true) (fun _ _ => false) (fun _ => true) (fun _ => 0) (fun _ _ _ _ => EFailure None false false)
               (fun _ _ => []) (fun _ => true) (fun _ _ => []) (fun _ => true) (fun _ _ _ => []) (fun _ _ _ _ => EFailure None false false)
               (fun _ _ => 0) (fun _ => 0) (fun _ _ offs => offs)),
          (counting_quota None).
   eexists _, _.
   split; [split; intros; intros i s; exact I|].
   split; [apply hyper_selection_ok; [intros g pop offs s Hs; right; exact Hs|intros g pop s []]|].
-  split; [reflexivity|]. split; [reflexivity|]. split; [reflexivity|]. split; [cbn; lia|]. split; [cbn; lia|]. split; [reflexivity|].
-  split; [split; [cbn; lia|split; reflexivity]|].
-  split; [intros t Ht; cbn [o_time]; apply Nat.leb_le; exact Ht|]. split; [cbn; lia|].
-  split; vm_compute; reflexivity.
+  split; [reflexivity|]. split; [reflexivity|]. split; [reflexivity|]. split; [reflexivity|]. split; [cbn; lia|]. split; [cbn; lia|].
+  split; [cbn; lia|]. split; [reflexivity|].
+  split; [intros t _; reflexivity|]. split; [cbn; lia|].
+  split; [vm_compute; reflexivity|]. split; vm_compute; reflexivity.
 Qed.
 
 (* -- clause "It never runs more generations than the configured maximum":
@@ -300,21 +303,17 @@ Qed.
       is entered N + 1 times *)
 Theorem C07_generations_run_exact :
   forall (cfg : econfig) (W : oracles) (q : quota) (N : nat),
-    oracles_ok W -> hyper_ok (c_jobs cfg) W ->
+    oracles_ok W -> hyper_ok (c_jobs cfg) W -> c_legacy_stop cfg = false ->
     c_max_gen cfg = Some N -> 1 <= N -> c_user_term cfg = None -> 1 <= c_init_ops cfg -> 1 <= c_init_size cfg -> 1 <= c_track cfg ->
-    c_individuals cfg = [] ->
-    (c_max_time cfg = true -> o_init_quota W 0 = false) ->
+    Forall (fun s => Inv (c_jobs cfg) s /\ h_required s = []) (c_individuals cfg) ->
     (forall n, q n = false) -> (forall t, o_time W t = false) -> (forall i t, o_other W i t = false) ->
     exists best st, evolve cfg W q = EOk best st /\ gens_run (s_tele st) = N + 1 /\ t_metric_gens (s_tele st) = N /\ s_iters st = N + 1.
 Proof.
-  intros cfg W q N HW HH Hc HN Hu Hops Hsize HT Hind Ht Hq Htm Hot.
+  intros cfg W q N HW HH Hleg Hc HN Hu Hops Hsize HT Hind Hq Htm Hot.
   assert (HL : eff_limit cfg N = N) by (unfold eff_limit; rewrite Hu; reflexivity).
-  assert (Hs : seeded cfg = []) by (unfold seeded; rewrite Hind; destruct (c_init_size cfg); reflexivity).
   destruct (evolve_generations_exact cfg W q HW HH N Hc) as (best & st & E & Hg & Hm & Hi);
-    [rewrite HL; exact HN|exact Hops|exact HT|rewrite Hind; constructor| |exact Hq|exact Htm|exact Hot|].
-  - right. rewrite Hs. split; [cbn [length]; lia|].
-    apply (first_check_positive_limit cfg W N Hc); [rewrite HL; exact HN| |rewrite Hs; exact Ht]. intros t _. split; [apply Htm|intros i; apply Hot].
-  - exists best, st. rewrite HL in Hg, Hm, Hi. split; [exact E|]. split; [lia|]. split; [exact Hm|lia].
+    [rewrite HL; exact HN|exact Hops|exact HT|exact Hind|exact (starts_nonempty_now cfg W Hleg Hsize)|exact Hq|exact Htm|exact Hot|].
+  exists best, st. rewrite HL in Hg, Hm, Hi. split; [exact E|]. split; [lia|]. split; [exact Hm|lia].
 Qed.
 
 (* the same with a USER-SUPPLIED termination criterion that is reached only through the statistics (`statistics().generation >= L`,
@@ -323,22 +322,18 @@ Qed.
    whatever parents the (user-supplied) population selected *)
 Theorem C07_generations_run_exact_user_termination :
   forall (cfg : econfig) (W : oracles) (q : quota) (N L : nat),
-    oracles_ok W -> hyper_ok (c_jobs cfg) W ->
+    oracles_ok W -> hyper_ok (c_jobs cfg) W -> c_legacy_stop cfg = false ->
     c_max_gen cfg = Some N -> 1 <= N -> c_user_term cfg = Some L -> 1 <= L -> 1 <= c_init_ops cfg -> 1 <= c_init_size cfg ->
-    1 <= c_track cfg -> c_individuals cfg = [] ->
-    (c_max_time cfg = true -> o_init_quota W 0 = false) ->
+    1 <= c_track cfg -> Forall (fun s => Inv (c_jobs cfg) s /\ h_required s = []) (c_individuals cfg) ->
     (forall n, q n = false) -> (forall t, o_time W t = false) -> (forall i t, o_other W i t = false) ->
     exists best st, evolve cfg W q = EOk best st /\ gens_run (s_tele st) = Nat.min N L + 1 /\ t_metric_gens (s_tele st) = Nat.min N L
                     /\ s_iters st = Nat.min N L + 1.
 Proof.
-  intros cfg W q N L HW HH Hc HN Hu HL1 Hops Hsize HT Hind Ht Hq Htm Hot.
+  intros cfg W q N L HW HH Hleg Hc HN Hu HL1 Hops Hsize HT Hind Hq Htm Hot.
   assert (HL : eff_limit cfg N = Nat.min N L) by (unfold eff_limit; rewrite Hu; reflexivity).
-  assert (Hs : seeded cfg = []) by (unfold seeded; rewrite Hind; destruct (c_init_size cfg); reflexivity).
   destruct (evolve_generations_exact cfg W q HW HH N Hc) as (best & st & E & Hg & Hm & Hi);
-    [rewrite HL; lia|exact Hops|exact HT|rewrite Hind; constructor| |exact Hq|exact Htm|exact Hot|].
-  - right. rewrite Hs. split; [cbn [length]; lia|].
-    apply (first_check_positive_limit cfg W N Hc); [rewrite HL; lia| |rewrite Hs; exact Ht]. intros t _. split; [apply Htm|intros i; apply Hot].
-  - exists best, st. rewrite HL in Hg, Hm, Hi. split; [exact E|]. split; [lia|]. split; [exact Hm|lia].
+    [rewrite HL; lia|exact Hops|exact HT|exact Hind|exact (starts_nonempty_now cfg W Hleg Hsize)|exact Hq|exact Htm|exact Hot|].
+  exists best, st. rewrite HL in Hg, Hm, Hi. split; [exact E|]. split; [lia|]. split; [exact Hm|lia].
 Qed.
 
 (* one iteration of Iterative::run, for EVERY offspring oracle and every parent selection: it is COUNTED - the number of generations
@@ -362,7 +357,7 @@ Theorem C07_generations_bounded_refuted :
   exists (cfg : econfig) (W : oracles) (q : quota) (N : nat) (best : hsol) (st : estate),
     c_max_gen cfg = Some N /\ 1 <= N /\ evolve cfg W q = EOk best st /\ N < gens_run (s_tele st).
 Proof.
-  exists (mkC [0%Z; 1%Z] 1 (Some 1) false None false None 4 4 0 [] 1), (skip_oracles 0 []), (counting_quota None), 1.
+  exists (mkC [0%Z; 1%Z] 1 (Some 1) false None false None 4 4 0 [] 1 false), (skip_oracles 0 []), (counting_quota None), 1.
   eexists _, _. split; [reflexivity|]. split; [lia|]. split; [vm_compute; reflexivity|]. vm_compute. lia.
 Qed.
 
@@ -373,15 +368,13 @@ Qed.
    combination of max_generations = N with max-time, min-cv (sample or period, any size) and target proximity *)
 Theorem C07_generations_bounded_partial :
   forall (cfg : econfig) (W : oracles) (q : quota) (N : nat),
-    oracles_ok W -> hyper_ok (c_jobs cfg) W ->
-    c_max_gen cfg = Some N -> 1 <= N -> (forall l, c_user_term cfg = Some l -> 1 <= l) -> 1 <= c_init_ops cfg -> 1 <= c_init_size cfg ->
+    oracles_ok W -> hyper_ok (c_jobs cfg) W -> c_legacy_stop cfg = false ->
+    c_max_gen cfg = Some N -> 1 <= c_init_ops cfg -> 1 <= c_init_size cfg ->
     1 <= c_track cfg -> Forall (fun s => Inv (c_jobs cfg) s /\ h_required s = []) (c_individuals cfg) ->
-    (forall t, t < 3 -> o_time W t = false /\ forall i, o_other W i t = false) ->
-    (c_max_time cfg = true -> o_init_quota W (length (seeded cfg)) = false) ->
     exists best st, evolve cfg W q = EOk best st /\ gens_run (s_tele st) <= N + 1 /\ s_iters st <= N + 1.
 Proof.
-  intros cfg W q N HW HH Hc HN Hu Hops Hsize HT Hind Hquiet Hiq.
-  destruct (C07_evolve_returns_valid cfg W q N 0 HW HH Hc HN Hu Hops Hsize HT Hind Hquiet Hiq)
+  intros cfg W q N HW HH Hleg Hc Hops Hsize HT Hind.
+  destruct (C07_evolve_returns_valid cfg W q N 0 HW HH Hleg Hc Hops Hsize HT Hind)
     as (best & st & E & _ & _ & _ & Hg & _ & _ & _ & (Hi & _) & _).
   exists best, st. split; [exact E|]. split; lia.
 Qed.
